@@ -218,3 +218,44 @@ def update_reconciles(ctx):
                     ok = any(r[0] == 'param' and r[1] == names.get('msk') and r[2][-1:] == ('access_structure',) for r in rs)
             ctx.check(ok, api, 'universe <- access_structure.omega()', '%s does not hand update_msk the universe of rights of the key\'s own '
                       'access structure' % api, 'rights <- msk.access_structure.omega()?', c.where())
+
+
+@rule('C03', 'dict-remove-shifts')
+def dict_remove_shifts(ctx):
+    """Order-preserving removal: Dict::remove takes the index of the key out of the map, decrements by one
+    every remaining index greater than it (over the WHOLE index map), and removes that position from the
+    entry vector."""
+    F = ctx.F
+    rb = F.fn('data_struct::dictionary::Dict::<K, V>::remove')
+    fam = F.family(rb.key)
+    rm = rb.calls(r'HashMap::<[^>]*>::remove$')
+    er = rb.calls(r'Vec::<[^>]*>::remove$')
+    ctx.check(len(rm) == 1 and len(er) == 1, rb.key, 'indices.remove + entries.remove',
+              'Dict::remove no longer removes the key from the index map and its entry from the vector', '', rb.where())
+    if len(rm) != 1 or len(er) != 1:
+        return
+    # same index
+    idx_l, _d = lib.resolve_copy(rb, op_local(er[0].args[1]))
+    sl = backward_slice(rb, [er[0].args[1]], follow_mutarg=False)
+    ctx.check(any(x is rm[0] for x in sl.calls), rb.key, 'entries.remove(index of the key)',
+              'the entry removed from the vector is not at the index the key mapped to', 'same index', er[0].where())
+    # the shift visits every remaining index
+    its = rb.calls(r'HashMap::<[^>]*>::(iter_mut|values_mut)$')
+    trunc = []
+    for fb in fam:
+        trunc += fb.calls(r'^std::iter::Iterator::(skip|take|step_by|nth|skip_while|take_while|rev|last)$')
+    ctx.check(len(its) == 1 and not trunc, rb.key, 'shift visits the whole index map',
+              'the index shift does not walk the whole index map (%s): entries after the removed one keep stale positions and names '
+              'resolve to the wrong attribute' % ([c.name for c in trunc] or 'no iter_mut over indices'), 'indices.iter_mut(), untruncated', rb.where())
+    # predicate: index > removed index ; action: index -= 1
+    gt = sub = False
+    for fb in fam:
+        for b in sorted(fb.live_blocks()):
+            for st in fb.stmts(b):
+                rv = st['rv']
+                if rv['k'] == 'bin' and rv['op'] == 'Gt':
+                    gt = True
+                if rv['k'] == 'bin' and rv['op'] in ('SubWithOverflow', 'Sub') and rv['b'].get('c', {}).get('v') == 1:
+                    sub = True
+    ctx.check(gt and sub, rb.key, 'index > removed => index -= 1', 'the shift is not `if index > removed { index -= 1 }` (Gt=%s, -1=%s)' % (gt, sub),
+              'Gt comparison and decrement by one', rb.where())
